@@ -281,11 +281,11 @@ func (cr *CheckRun) Shape() uint64 {
 }
 
 var reDur = regexp.MustCompile(`\(([0-9.]+(ns|µs|ms|s|m|h))+\)`)
-var reFFName = regexp.MustCompile(`-\d{14}-\d+\.fail`)
+var reFFName = regexp.MustCompile(`-\d{14}-\d+((-c\d+)?\.fail)`)
 
 func NormText(s string) string {
 	s = reDur.ReplaceAllString(s, "(DUR)")
-	s = reFFName.ReplaceAllString(s, "-TS-PID.fail")
+	s = reFFName.ReplaceAllString(s, "-TS-PID$1")
 	s = rePtr.ReplaceAllString(s, "(*int)(PTR)")
 	return s
 }
@@ -314,6 +314,23 @@ func DrawLog(inv *Invocation) string {
 	var b strings.Builder
 	for _, d := range inv.Draws {
 		fmt.Fprintf(&b, "%s=%s;", d.Label, d.Norm)
+	}
+	return b.String()
+}
+
+// DrawLogPruned: the draws that survive pruning (rejected action attempts removed), auto-numbered labels normalised
+// (their numbers shift when attempts are removed).
+func DrawLogPruned(inv *Invocation) string {
+	var b strings.Builder
+	for _, d := range inv.Draws {
+		if d.Rejected {
+			continue
+		}
+		l := d.Label
+		if strings.HasPrefix(l, "#") {
+			l = "#"
+		}
+		fmt.Fprintf(&b, "%s=%s;", l, d.Norm)
 	}
 	return b.String()
 }
